@@ -48,10 +48,34 @@ def regen(ctx):
 
 # ------------------------------------------------------------------ cases
 
-def gen_case(rnd):
+def gen_case(rnd, env_share=0.0):
     tree = sr.gen_tree(rnd, max_depth=rnd.choice([2, 3, 3, 4]), printed_paths=True)
     patterns = sr.gen_patterns(rnd, tree)
-    return {"tree": sr.tree_to_json(tree), "patterns": patterns, "sources": sr.split_sources(rnd, patterns)}
+    case = {"tree": sr.tree_to_json(tree), "patterns": patterns, "sources": sr.split_sources(rnd, patterns)}
+    if env_share and rnd.random() < env_share:
+        case["env"] = sr.gen_env(rnd, tree)      # the surroundings of the root never matter (hidden / excluded names above it, a git checkout's .gitignore)
+    return case
+
+
+def boundary_ns(full):
+    if full:
+        return [n for n in sr.line_rungs() if n <= 130] + [n for n in sr.line_rungs() if n > 130][:6]
+    from gen import srcdict
+    return sorted(set([16, 30, 31, 60, 61]) | set(srcdict.novel_rungs(3, 5000)[:8]))
+
+
+def boundary_case(exts=(".py", ".c", ".js", ".ts", ".cpp"), full=True):
+    """files that are ONE function of n lines - n on the neighbours of every threshold plus source-integer rungs - with
+    and without a final newline and with CR LF line ends: a ladder over (line count x ending x language)"""
+    ns = boundary_ns(full)
+    dirs = []
+    for ext in exts:
+        fs = []
+        for n in ns:
+            for tag, ending in (("nl", "\n"), ("nonl", ""), ("crlf", "crlf")):
+                fs.append(["F", "w%d_%s%s" % (n, tag, ext), sr.whole_file_function(ext, n, ending).decode("latin-1")])
+        dirs.append(["D", ext[1:], fs])
+    return {"tree": ["D", "root", dirs], "patterns": [], "sources": {"option": [], "config": [], "gitignore": []}}
 
 
 LONG = sr.source_for(".py", [5, 31, 61, 30, 31, 75]).decode()
@@ -107,7 +131,7 @@ def observe(case, only=None, rnd=None):
     """real runs for one tree -> list of (way, real observation, model request) + tables"""
     tree = sr.tree_from_json(case["tree"])
     runs = []
-    with sr.TempTree(tree) as T:
+    with sr.TempTree(tree, case.get("env")) as T:
         T.chdir(T.root)
         sr.install_exclusions(T.root, case["sources"], ".")
         snap = sr.snapshot(T.root, skip=sr.HARNESS_FILES)
@@ -401,7 +425,19 @@ def correspond(ctx):
     rnd = ctx.rng("trees")
     n = ctx.pick(115, 2500)
     cases = [dict(c) for c in FIXED] + [gen_case(rnd) for _ in range(n)]
+    re_ = ctx.rng("environment")
+    spy, sjs = sr.source_for(".py", [31, 61]).decode(), sr.source_for(".js", [61]).decode()
+    small = {"tree": ["D", "root", [["F", "big.py", spy], ["D", "src", [["F", "big.js", sjs], ["D", "lib", [["F", "deep.py", spy]]]]]]],
+             "patterns": [], "sources": {"option": [], "config": [], "gitignore": []}}
+    cases += [dict(small, env=sr.gen_env(re_, sr.tree_from_json(small["tree"]))) for _ in range(ctx.pick(5, 30))]
+    cases += [dict(FIXED[k % len(FIXED)], env=sr.gen_env(re_, sr.tree_from_json(FIXED[k % len(FIXED)]["tree"]))) for k in range(ctx.pick(1, 12))]
+    cases += [gen_case(re_, 1.0) for _ in range(ctx.pick(8, 400))]
+    cases.append(boundary_case(ctx.pick((".py", ".c"), (".py", ".c", ".js", ".ts", ".cpp")), ctx.thorough))
     dis, fails, stats, nontrivial = run_cases(cases, ctx.rng("ways"))
+    stats["with_environment"] = sum(1 for c in cases if c.get("env"))
+    stats["environment_hidden_ancestor"] = sum(1 for c in cases if any(a.startswith(".") for a in (c.get("env") or {}).get("above", [])))
+    stats["environment_git_checkout_above"] = sum(1 for c in cases if any("/.git" in "/" + f for f in (c.get("env") or {}).get("files", {})))
+    stats["whole_file_function_ladder"] = {"line_counts": boundary_ns(ctx.thorough), "endings": ["final newline", "none", "CR LF"]}
     stats["kinds"] = {"relative file": stats["kinds"][0], "absolute file (model only)": stats["kinds"][1],
                       "relative directory": stats["kinds"][2], "absolute directory": stats["kinds"][3],
                       "several arguments (model only)": stats["kinds"]["several"],
@@ -409,7 +445,7 @@ def correspond(ctx):
     stats["names_with_control_characters_dropped"] = sr.DROPPED["names_with_control_characters"]
     return {
         "evaluations": stats["runs"], "distinct_nontrivial": len(nontrivial),
-        "rule": "%d random trees + %d fixed (generator of C11; functions of 3..75 lines incl. 30/31/60/61; Latin-1, malformed and empty files; a third of the trees with 1-3 symbolic links to files inside the tree - also in hidden / excluded folders - or outside it: a link is a file of its own for scan and for check, named by ITS path - also when it is reached by a relative file path and its target lies in an excluded folder or outside the root (defect F26, fixed; regression tree in FIXED)) x patterns of the 6 gitignore classes via option/.codelimit.yml/.gitignore; per tree: check on every file by relative path (and by absolute path, model comparison only), on every directory (root `.` and all sub-directories; hidden directories for the model comparison only) relatively and absolutely, one call with 2-3 arguments (model only), and ~6 calls from a working directory below the root incl. arguments outside it (model only); non-trivial = distinct (tree, patterns, way) with at least one listed function; the trees carry %d nested .gitignore files (lines drawn from the names beneath them), %d files whose language follows from a Pygments extension / whole-name pattern outside the classic pool (*.h, *.hh, *.mjs, *.pyi, BUILD.bazel, SConscript, ...) and %d paths with non-ASCII (NFC / NFD twin) or shell/JSON-awkward names; names with control characters (< U+0020; %d drawn and dropped) are not used here because check's listing is compared as PRINTED (rich expands TAB for the terminal: interpretation decision, Appendix A) - C11 keeps them for the exact key comparison; every judged call is ALSO judged by agreement alone: a non-hidden file below the argument is analysed by check iff scan_path(\".\") analyses it" % (n, len(FIXED), stats.get("nested_gitignore_files", 0), stats.get("names_by_pygments_pool", 0), stats.get("non_ascii_paths", 0), stats["names_with_control_characters_dropped"]),
+        "rule": "%d random trees + %d fixed (generator of C11; functions of 3..75 lines incl. 30/31/60/61; Latin-1, malformed and empty files; a third of the trees with 1-3 symbolic links to files inside the tree - also in hidden / excluded folders - or outside it: a link is a file of its own for scan and for check, named by ITS path - also when it is reached by a relative file path and its target lies in an excluded folder or outside the root (defect F26, fixed; regression tree in FIXED)) x patterns of the 6 gitignore classes via option/.codelimit.yml/.gitignore; per tree: check on every file by relative path (and by absolute path, model comparison only), on every directory (root `.` and all sub-directories; hidden directories for the model comparison only) relatively and absolutely, one call with 2-3 arguments (model only), and ~6 calls from a working directory below the root incl. arguments outside it (model only); non-trivial = distinct (tree, patterns, way) with at least one listed function; the trees carry %d nested .gitignore files (lines drawn from the names beneath them), %d files whose language follows from a Pygments extension / whole-name pattern outside the classic pool (*.h, *.hh, *.mjs, *.pyi, BUILD.bazel, SConscript, ...) and %d paths with non-ASCII (NFC / NFD twin) or shell/JSON-awkward names; names with control characters (< U+0020; %d drawn and dropped) are not used here because check's listing is compared as PRINTED (rich expands TAB for the terminal: interpretation decision, Appendix A) - C11 keeps them for the exact key comparison; every judged call is ALSO judged by agreement alone: a non-hidden file below the argument is analysed by check iff scan_path(\".\") analyses it" % (n, len(FIXED), stats.get("nested_gitignore_files", 0), stats.get("names_by_pygments_pool", 0), stats.get("non_ascii_paths", 0), stats["names_with_control_characters_dropped"]) + "; round 6: %d trees sit in a generated ENVIRONMENT (1-3 directories above the root with hidden / built-in-excluded / plain names, %d with a hidden ancestor; %d below a git checkout's `.git` + .gitignore whose lines name files of the tree): the surroundings of the root never matter; one ladder tree of files that are ONE function of n lines (n = the thresholds' neighbours 15/16, 29..32, 59..62 + source-integer rungs) x (final newline / none / CR LF) x language, and a share of all generated files of that shape" % (stats["with_environment"], stats["environment_hidden_ancestor"], stats["environment_git_checkout_above"]),
         "samples": [], "exhaustive": False, "distribution": stats,
         "disagreements": dis[:50], "oracle_failures": sorted(fails, key=lambda f: len(json.dumps(f["input"], default=str)))[:50],
     }
@@ -420,7 +456,7 @@ def search(ctx, hints):
     cases = []
     for h in hints:
         if isinstance(h, dict) and "tree" in h:
-            cases.append({k: h[k] for k in ("tree", "patterns", "sources")})
+            cases.append({k: h[k] for k in ("tree", "patterns", "sources", "env") if k in h})
     cases += [gen_case(rnd) for _ in range(ctx.pick(60, 400))]
     fails = []
     for c in cases:
@@ -439,7 +475,9 @@ def search(ctx, hints):
 
 def replay(payload):
     inp = payload["input"]
-    c = {k: inp[k] for k in ("tree", "patterns", "sources")}
+    c = {k: inp[k] for k in ("tree", "patterns", "sources", "env") if k in inp}
+    if c.get("env"):
+        print("environment: root = <tmp>/w/%s/root, files above the root: %s" % ("/".join(c["env"]["above"]), c["env"]["files"]))
     way = inp.get("way")
     only = [way] if way else None
     runs, table, scan_err = observe(c, only)
